@@ -189,6 +189,75 @@ pub fn strategy_wide(max_width: usize) -> impl Strategy<Value = Case> {
         })
 }
 
+/// Sparse-change mode: layers held together by an unchanged "spine" (target 0 of every layer
+/// uses target 0 of the layer below and one never-changing file inside every other target of
+/// that layer); the other targets use the spine below them and, mostly, one whole target two or
+/// more layers further down. So every target has both a dependency chain and a dependents chain. Only non-spine targets
+/// are changed, so the changed set skips levels: a changed target's nearest changed dependency
+/// is often not in the next lower changed level.
+pub fn strategy_sparse() -> impl Strategy<Value = Case> {
+    (3usize..=5, vec(1usize..=3, 5), vec(any::<u16>(), 32), vec(any::<bool>(), 16), 1usize..=2, any::<bool>()).prop_map(
+        |(nlayers, widths, picks, changed_mask, ncmd, random_timing)| {
+            let mut targets = vec![];
+            let mut layer_of: Vec<(usize, usize)> = vec![];
+            let mut k = 0usize;
+            let mut nextp = |m: usize| {
+                k += 1;
+                pick(picks[k % picks.len()], m)
+            };
+            for li in 0..nlayers {
+                for j in 0..=widths[li] {
+                    let mut t = crate::model::TargetSpec::new(&format!("s{}t{}", li, j));
+                    if li > 0 {
+                        t.uses.push(format!("s{}t0", li - 1));
+                    }
+                    if li > 0 && j == 0 {
+                        // the spine also depends on every other target of the layer below, through a
+                        // file that is never the changed one: an edge (and a level) without propagation
+                        for jj in 1..=widths[li - 1] {
+                            t.uses.push(format!("s{}t{}/api.txt", li - 1, jj));
+                        }
+                    }
+                    if j > 0 && li >= 2 && nextp(5) < 4 {
+                        let lower = nextp(li - 1);
+                        let which = 1 + nextp(widths[lower]);
+                        t.uses.push(format!("s{}t{}", lower, which));
+                    }
+                    targets.push(t);
+                    layer_of.push((li, j));
+                }
+            }
+            let config = ConfigSpec { targets, ..Default::default() };
+            let mut chosen = vec![];
+            for (i, t) in config.targets.iter().enumerate() {
+                if layer_of[i].1 > 0 && changed_mask[i % changed_mask.len()] {
+                    chosen.push(t.path.clone());
+                }
+            }
+            if chosen.is_empty() {
+                chosen.push("s0t1".to_string());
+            }
+            let names: Vec<String> = (0..ncmd).map(|i| format!("c{}", i)).collect();
+            let mut sleeps = vec![];
+            for c in &names {
+                for (i, t) in config.targets.iter().enumerate() {
+                    // lower layers are slower, so a dependent started too early is seen
+                    let ms = if random_timing { (picks[i % picks.len()] % 60) as u64 } else { 25 * (nlayers - layer_of[i].0) as u64 };
+                    sleeps.push((c.clone(), t.path.clone(), ms));
+                }
+            }
+            Case {
+                config,
+                mode: Mode::Changed(chosen),
+                seq_args: vec![],
+                cmd_args: names,
+                sleeps,
+                timing: if random_timing { "random".into() } else { "deps-slower".into() },
+            }
+        },
+    )
+}
+
 pub fn expected_commands(case: &Case) -> Vec<String> {
     let mut v = vec![];
     for s in &case.seq_args {
@@ -368,7 +437,7 @@ pub fn check(case: &Case, w: usize) -> CheckResult {
 }
 
 pub fn run(ctx: &mut Ctx) {
-    ctx.rule = "acyclic configuration (<=10 targets; plus a size-boundary mode with one layer of 12-70 (thorough: 130) independent targets, biased to 28-40 and 60-70, below 1-3 dependents) x selection mode (all / changed / -t --deps) x 1-4 commands split over -s sequences and -c (one of them may be listed a second time) \
+    ctx.rule = "acyclic configuration (<=10 targets; plus a size-boundary mode with one layer of 12-70 (thorough: 130) independent targets, biased to 28-40 and 60-70, below 1-3 dependents; plus a sparse-change mode: 3-5 layers on an unchanged spine, non-spine targets using targets two or more layers down, only non-spine targets changed) x selection mode (all / changed / -t --deps) x 1-4 commands split over -s sequences and -c (one of them may be listed a second time) \
 x run-time assignment (zero / random / dependencies slower than dependents / earlier command slower); all helpers exit 0. oracle over helper traces \
 (CLOCK_MONOTONIC): start(T,c) >= end(U,c) for every dep(T,U) in the run, min start(c[i+1]) >= max end(c[i]), result command order == documented order. \
 non-trivial = a dependency pair whose dependency sleeps longer than its dependent, or two consecutive commands with the earlier one slower; distinct by SHA-256"
@@ -382,6 +451,8 @@ non-trivial = a dependency pair whose dependency sleeps longer than its dependen
     let n2 = ctx.n(24, 400);
     let max_width = if ctx.thorough() { 130 } else { 70 };
     ctx.drive("wide", || strategy_wide(max_width), n2, check);
+    let n3 = ctx.n(60, 1000);
+    ctx.drive("sparse-changes", strategy_sparse, n3, check);
 }
 
 pub fn replay(ctx: &Ctx, label: &str, case: Value) -> Result<(), String> {
